@@ -15,6 +15,15 @@ CHECKS = {
    note="Trusted: the harness's graph builders (cells/structs named c<i>), TLC, the Json module. Embedded orderers are "
         "observed through public results only (no hooks).",
    tech="TLA+ spec (DepOrderProps/Abs/DFS) + TLC exhaustive + refinement; S->I replay and I->S trace validation"),
+ "C15": dict(cat="model_checking", ref="§6 C15",
+   text="GdsReal.tla specifies both 64-bit formats and the exact conversions on hex-digit sequences; TLC evaluates the "
+        "round-trip/normalisation theorems on every boundary class (all doubles within 8 ulp of each power of two in range, "
+        "all <=2-bit fractions, rounding ties and carries of normalised reals) and emits the expected 16 digits; each is replayed "
+        "into GdsFloat64 (bit equality) and random in-range values recorded from the code are validated by TLC. The spec itself "
+        "is cross-checked against exact rational arithmetic on every run.",
+   note="Trusted: TLC, Hex.tla digit arithmetic (self-tested against python fractions each run), harness digit conversion. "
+        "Domain: -0.0 excluded; only normalised reals decoded.",
+   tech="TLA+ executable spec of the codec + TLC enumeration; S->I replay and I->S trace validation"),
 }
 
 PENDING = {}
